@@ -114,6 +114,14 @@ pub fn run(ctx: &Ctx) -> Report {
             gen::shape(t, &mut r, &c)
         };
         check(&s, &case, rep);
+        // the same shape with every measure NO_DATA / NaN / -inf / 0: serialised size must not
+        // depend on the measure values
+        if gen::carries_m(t) {
+            let m = [gen::NO_DATA, f64::NAN, f64::NEG_INFINITY, 0.0][(i + p + l) % 4];
+            let u = crate::shapes::with_uniform_measure(&s, m);
+            check(&u, &format!("{}:uniform-m", case), rep);
+            rep.count("uniform_measure_variants", 1);
+        }
     });
     rep.guard("grid+random shapes evaluated", rep.evaluations, if ctx.only.is_some() { 1 } else { items.len() as u64 });
     rep
